@@ -2,7 +2,10 @@
 // (the symbol is mangle(display name); mangling is PROVED injective, so a collision can only come from here).
 // Links the REAL dora-frontend / dora-bytecode: type-checks generated programs, emits the Program and checks that
 // display_fct is injective over all functions of the program (standard library included). Executed, not proved.
-use dora_bytecode::{display_fct, FunctionId, Program};
+mod aotnames;
+use aotnames::{aot_compiled_function_name, CompiledFunction, CompiledFunctionTarget};
+use dora_bytecode::{display_fct, BytecodeType, BytecodeTypeArray, FunctionId, FunctionKind, Program};
+use dora_compiler::TraitObjectThunk;
 use dora_frontend::sema::{Sema, SemaCreationParams};
 use dora_frontend::{check_program, emit_program};
 use std::collections::HashMap;
@@ -69,6 +72,52 @@ fn check(text: &str) -> Result<Option<usize>, String> {
         if let Some(j) = seen.insert(name.clone(), i) {
             return Err(format!("functions #{} and #{} have the same display name {:?} (hence the same linker symbol)", j, i, name));
         }
+    }
+    // instantiations: the AOT name of (function, type arguments) must distinguish every type argument - of the container (impl / extension)
+    // and of the function itself. For every generic function: vary one position at a time.
+    let tys = [BytecodeType::Int64, BytecodeType::Bool, BytecodeType::Float32];
+    for i in 0..prog.functions.len() {
+        let f = &prog.functions[i];
+        if f.name == "<dummy>" { continue; }
+        if matches!(f.kind, FunctionKind::Trait(_)) { continue; } // trait methods are instantiated through Self; not compiled under this name
+        let n = f.type_params.names.len();
+        if n == 0 || n > 6 { continue; }
+        let base: Vec<BytecodeType> = (0..n).map(|_| BytecodeType::Int64).collect();
+        let name_of = |tps: &Vec<BytecodeType>| -> Result<String, String> {
+            let entry = CompiledFunction { target: CompiledFunctionTarget::Function { fct_id: FunctionId::from(i), type_params: BytecodeTypeArray::new(tps.clone()) } };
+            std::panic::catch_unwind(std::panic::AssertUnwindSafe(|| aot_compiled_function_name(&prog, &entry)))
+                .map_err(|_| format!("aot_compiled_function_name panics for function #{} ({:?}) with type arguments {:?}", i, f.name, tps))
+        };
+        let n0 = name_of(&base)?;
+        for j in 0..n {
+            for t in tys.iter().skip(1) {
+                let mut v = base.clone();
+                v[j] = t.clone();
+                let n1 = name_of(&v)?;
+                if n1 == n0 {
+                    return Err(format!("two instantiations of function #{} ({:?}) that differ in type argument {} ({:?} / Int64) get the same name {:?} (hence the same linker symbol)", i, f.name, j, t, n0));
+                }
+            }
+        }
+    }
+    // trait-object thunks: the name must distinguish the trait method, the concrete type and the trait-object type (incl. its type arguments)
+    for i in 0..prog.functions.len() {
+        let f = &prog.functions[i];
+        let trait_id = match f.kind { FunctionKind::Trait(id) => id, _ => continue };
+        if f.name == "<dummy>" { continue; }
+        let thunk = |actual: BytecodeType, targs: Vec<BytecodeType>| -> Result<String, String> {
+            let entry = CompiledFunction { target: CompiledFunctionTarget::TraitObjectThunk(TraitObjectThunk {
+                trait_fct_id: FunctionId::from(i),
+                trait_object_ty: BytecodeType::TraitObject(trait_id, BytecodeTypeArray::new(targs.clone()), BytecodeTypeArray::empty()),
+                actual_object_ty: actual.clone() }) };
+            std::panic::catch_unwind(std::panic::AssertUnwindSafe(|| aot_compiled_function_name(&prog, &entry)))
+                .map_err(|_| format!("aot_compiled_function_name panics for a thunk of trait method #{} ({:?})", i, f.name))
+        };
+        let a = thunk(BytecodeType::Int64, vec![BytecodeType::Int64])?;
+        let b = thunk(BytecodeType::Int64, vec![BytecodeType::Bool])?;
+        let c = thunk(BytecodeType::Bool, vec![BytecodeType::Int64])?;
+        if a == b { return Err(format!("thunks of trait method #{} ({:?}) for the same concrete type as two different trait-object types get the same name {:?}", i, f.name, a)); }
+        if a == c { return Err(format!("thunks of trait method #{} ({:?}) for two different concrete types get the same name {:?}", i, f.name, a)); }
     }
     // native functions are linked by mangle_name(native_function_path(..)) (dora-compiler/src/native_lookup.rs): unique, valid characters
     let mut natives: HashMap<String, usize> = HashMap::new();
